@@ -8,6 +8,11 @@ let ascii_of_char c =
   let n = Char.code c in let b i = (n lsr i) land 1 = 1 in
   Ascii (b 0, b 1, b 2, b 3, b 4, b 5, b 6, b 7)
 let cstr s = let rec go i = if i >= Stdlib.String.length s then EmptyString else String (ascii_of_char s.[i], go (i + 1)) in go 0
+(* a method name: the token itself, or `%` followed by the bytes of the name in hexadecimal *)
+let mname t =
+  if Stdlib.String.length t = 0 || t.[0] <> '%' then cstr t
+  else let n = (Stdlib.String.length t - 1) / 2 in
+    cstr (Stdlib.String.init n (fun k -> Char.chr (int_of_string ("0x" ^ Stdlib.String.sub t (1 + 2 * k) 2))))
 let out = function Ok _ -> put_w "OK" | Exit -> put_w "EXIT" | OOB -> put_w "OOB" | Fuel -> put_w "FUEL"
 (* sequential composition of two requests made by the harness in one case (constructor, then a call) *)
 let andthen a b = match a with Ok _ -> b () | Exit -> Exit | OOB -> OOB | Fuel -> Fuel
@@ -66,9 +71,9 @@ let mat_probe r = match word r with
 (* ---- requests made from inside a call-back / several requests in one process: the outcome of a sub-case is what the
    handler prints for it *)
 let entry r = match word r with
-  | "int1" -> let m = cstr (word r) in let a = num r in let b = num r in integrate_outcome fops m a b
-  | "int2" -> let m = cstr (word r) in let x1 = num r in let x2 = num r in let y1 = num r in let y2 = num r in integrate_2d_outcome fops m x1 x2 y1 y2
-  | "int3" -> let m = cstr (word r) in let x1 = num r in let x2 = num r in let y1 = num r in let y2 = num r in let z1 = num r in let z2 = num r in
+  | "int1" -> let m = mname (word r) in let a = num r in let b = num r in integrate_outcome fops m a b
+  | "int2" -> let m = mname (word r) in let x1 = num r in let x2 = num r in let y1 = num r in let y2 = num r in integrate_2d_outcome fops m x1 x2 y1 y2
+  | "int3" -> let m = mname (word r) in let x1 = num r in let x2 = num r in let y1 = num r in let y2 = num r in let z1 = num r in let z2 = num r in
       integrate_3d_outcome fops m x1 x2 y1 y2 z1 z2
   | "root" -> let e = parse_fexpr r in let a = num r in let b = num r in find_root_outcome fops (fun1 e) a b
   | w -> failwith ("unknown_entry_" ^ w)
@@ -120,9 +125,9 @@ let rec handler r =
   | "workload" -> let a = zi r in let b = zi r in out (guard_workload a b)
   | "minimize" -> let a = zi r in let b = zi r in out (guard_minimize_deltas a b)
   | "kde" -> out (guard_kde (zi r))
-  | "integrate" | "integrate_eq" -> out (guard_integrate (cstr (word r)))
-  | "integrate_2d" | "integrate_3d" -> out (guard_integrate_nd (cstr (word r)))
-  | "integrate_mc" -> out (guard_integrate_mc (cstr (word r)))
+  | "integrate" | "integrate_eq" -> out (guard_integrate (mname (word r)))
+  | "integrate_2d" | "integrate_3d" -> out (guard_integrate_nd (mname (word r)))
+  | "integrate_mc" -> out (guard_integrate_mc (mname (word r)))
   | "gauss_legendre" -> let nf = zi r in let l = zl r in out (guard_gauss_legendre nf l)
   | "metropolis" -> out (guard_metropolis (zi r))
   | "metropolis_2d" -> out (guard_metropolis_2d (zi r))
